@@ -113,7 +113,7 @@ pub fn run(args: &Args, rep: &mut Report) {
         todo.push(("replay".into(), Op::parse(&lines)));
     } else {
         for c in 0..cases {
-            let prof = ["plan", "batch", "funnel", "deps", "wide", "manyres"][(c % 6) as usize];
+            let prof = ["plan", "batch", "funnel", "deps", "wide", "manyres", "phname"][(c % 7) as usize];
             let mut cfg = GenCfg::profile(prof);
             cfg.p_dup_name = 0;
             cfg.p_unknown_dep = 0;
